@@ -228,7 +228,8 @@ func checkQuoteHelpers(c *Ctx) {
 			a.Cond.Walk(func(x *core.Term) bool {
 				if x.Op == "call" && strings.HasPrefix(x.Name, "packets.") && rawQuoteHelpers[x.Name] == "" {
 					for _, arg := range x.Args {
-						if strings.Contains(arg.String(), ".Payload") && (strings.Contains(arg.String(), "ICMP4") || strings.Contains(arg.String(), "ICMP6")) {
+						as := arg.String()
+						if (strings.Contains(as, ".Payload") && (strings.Contains(as, "ICMP4") || strings.Contains(as, "ICMP6"))) || (strings.Contains(as, "innerPkt") && strings.Contains(as, ".Contents")) {
 							bad = "module helper " + x.Name + " computed over the raw quoted header bytes"
 						}
 					}
